@@ -196,8 +196,18 @@ class PrettyShape(LayoutShape):
             hit = lookup(ent, a, fill)
             gaps.append(ITE(emitted, zv(b) & E.bvval(0xff) == hit, hit == fill))
         obl.append((f'C16.{fmt}.every_image_byte_is_described_and_gaps_are_not', AND(*gaps)))
-        inside = [AND(GE(zv(a), start), LT(zv(a), start + E.bvval(len(img)))) for a, _ in ent]
-        obl.append((f'C16.{fmt}.nothing_outside_the_image_is_described', AND(*inside)))
+        if self.params.get('fill') is not None:
+            # where no format describes a byte the image holds the fill option, nothing else
+            wfill = self._term(env, self.params['fill']) & E.bvval(0xff)
+            plain = []
+            for o, b in enumerate(img):
+                a = start + E.bvval(o)
+                emitted = OR(*[AND(GE(a, r.addr), LT(a, r.addr + r.size)) for r in ref.byte_recs()])
+                plain.append(OR(emitted, zv(b) & E.bvval(0xff) == wfill))
+            obl.append((f'C16.{fmt}.image_bytes_that_no_format_describes_are_fill', AND(*plain)))
+        if not self.params.get('window_cuts_the_program'):
+            inside = [AND(GE(zv(a), start), LT(zv(a), start + E.bvval(len(img)))) for a, _ in ent]
+            obl.append((f'C16.{fmt}.nothing_outside_the_image_is_described', AND(*inside)))
         if fmt == 'listing':
             rows = decode_listing(out.stdout)
             per = {}
@@ -293,6 +303,15 @@ def shapes(tier, seed):
             'inc.asm': [('data', '.byte', [('lsb', V('v2')), C(7)]), ('instr', 'nop', None)]},
             cfgargs=dict(origin=Sym('o0', 0, 0x7000), consts={'v2': c02.SYMS['v2'], 'o0': (0, 0x7000)}),
             props=['C16'], binary=True, fill=Sym('wf', -300, 300), start=Sym('o0', 0, 0x7000), pretty=fmt, width=48))
+    # a window that starts above the first bytes of the program (-s): inside the window image and formats still agree
+    for fmt in fmts:
+        if fmt == 'minhex':
+            continue
+        S.append(PrettyShape(f'{fmt}:hand:window-starts-above-first-bytes', prog={'main.asm': [
+            ('data', '.byte', [C(0xBB), ('lsb', V('v2'))]), ('org', C(0x120), None), ('data', '.byte', [C(1), C(2), C(3)]),
+            ('org', C(0x140), None), ('instr', 'nop', None), ('data', '.byte', [C(9)])]},
+            cfgargs=dict(origin=0x100, consts={'v2': c02.SYMS['v2']}), props=['C16'], binary=True, fill=Sym('wf', -300, 300),
+            start=Sym('ws', 0x11e, 0x122), pretty=fmt, width=48, window_cuts_the_program=True))
     # an origin set inside a muted region still places the unmuted bytes that follow it
     for fmt in fmts:
         S.append(PrettyShape(f'{fmt}:hand:org-in-muted-region', prog={'main.asm': [
